@@ -104,6 +104,12 @@ def run(ctx):
 
 def check_allow(ctx, p, key, e):
     req = ("field", ("vfield", ("param", "msg"), "Allow", "0"), "gas_limit")
+    # the request this write serves: the AllowMsg whose `contract` (validated) keys the write - the message's own payload, or one
+    # element of a list of them (a batch form calling the same handler once per entry)
+    k = e.key
+    if k is not None and k[0] == "vfield" and k[2] == "Ok" and k[1][0] == "call" and k[1][1].endswith("addr_validate") \
+            and k[1][2][-1][0] == "field" and k[1][2][-1][2] == "contract":
+        req = ("field", k[1][2][-1][1], "gas_limit")
     good = is_rmw(e) and e.op != "remove" and e.value[0] == "struct" and dict(e.value[2]).get("gas_limit") == req
     ctx.ob("R18.2", key + "/stores the requested limit", good, sites=[e.site],
            detail="Allow stores %s, not AllowInfo{gas_limit: requested}" % show(e.value)[:160], sample={"value": show(e.value)[:120]})
